@@ -1,5 +1,8 @@
 use memmap2::MmapMut;
+#[cfg(not(feature = "verif_hooks"))]
 use parking_lot::RwLockReadGuard;
+#[cfg(feature = "verif_hooks")]
+use crate::verif::RwLockReadGuard;
 
 use crate::{Database, Region};
 
